@@ -212,6 +212,8 @@ class DirectedWeightedGraph : private LabeledDirectedGraph<EdgeWeight> {
             edgeNumber--;
         }
         for (VertexIndex i = 0; i < size; ++i)
+            edgeLabels.erase({vertex, i});
+        for (VertexIndex i = 0; i < size; ++i)
             removeEdge(i, vertex);
     }
 
